@@ -321,7 +321,12 @@ class XBytes(Sym):
 
 
 def _sanitize(atom, s):
-    out = ''.join(ch for ch in s if atom.may_contain(ch))
+    # keep the length the model chose (the path condition may speak about it): a character the
+    # atom cannot contain is replaced, not dropped
+    fill = next((c for c in 'xX0-' if atom.may_contain(c)), None)
+    if fill is None and atom.only:
+        fill = sorted(atom.only)[0]
+    out = ''.join(ch if atom.may_contain(ch) else (fill or '') for ch in s)
     if atom.minlen and not out:
         cands = sorted(atom.only) if atom.only else ['x']
         out = cands[0]
